@@ -39,8 +39,17 @@ var lib = map[string][2]string{
 	// names that are only defined if something leaks from an earlier render
 	"um": {"{{ m(5) }}", "{{ l.m(5) }}"},
 	"ub": {"[{{ block('k') }}{{ q }}{{ p }}]", "{% block j %}{{ q }}{% endblock %}"},
+	// identifiers that differ only in case (what one parse leaves behind must not rename another's)
+	"cs1": {"{{ Title }}/{{ Xs|length }}", "{{ TITLE }}"},
+	"cs2": {"{{ title }}/{{ xs|length }}", "{{ tiTle }}{% for I in xs %}{{ I }}{{ i }}{% endfor %}"},
 }
-var names = []string{"a", "b", "loop", "inc", "base", "child", "lib", "use", "bad", "sb", "j", "um", "ub"}
+
+// deps: what a template needs registered besides itself (the pristine oracle registers only these,
+// so that its result does not depend on what else the process has parsed)
+var deps = map[string][]string{
+	"inc": {"a", "b"}, "child": {"base"}, "use": {"lib"}, "sb": {"a"}, "la": {"a"}, "lb": {"base"},
+}
+var names = []string{"a", "b", "loop", "inc", "base", "child", "lib", "use", "bad", "sb", "j", "um", "ub", "cs1", "cs2"}
 
 // templates served by an ArrayLoader (re-read when the cache is off)
 var loaded = map[string]string{
@@ -50,7 +59,7 @@ var loaded = map[string]string{
 var loadedNames = []string{"la", "lb"}
 
 var ctxs = []map[string]interface{}{
-	{"x": 1, "y": "Y", "xs": []interface{}{1, 2}},
+	{"x": 1, "y": "Y", "xs": []interface{}{1, 2}, "Title": "T1", "title": "t1", "TITLE": "T2", "tiTle": "t3", "Xs": []interface{}{9}, "i": "i!"},
 	{},
 	{"x": "<b>", "xs": []interface{}{}, "y": map[string]interface{}{"k": []interface{}{"n"}}},
 }
@@ -69,6 +78,8 @@ func (o op) String() string {
 		return fmt.Sprintf("%s(e%d,%s,c%d)", o.Kind, o.Eng, o.Name, o.Ctx)
 	case "register", "parse":
 		return fmt.Sprintf("%s(e%d,%s,v%d)", o.Kind, o.Eng, o.Name, o.V)
+	case "renderkept":
+		return fmt.Sprintf("renderkept(c%d)", o.Ctx)
 	}
 	return fmt.Sprintf("%s(e%d)", o.Kind, o.Eng)
 }
@@ -153,7 +164,29 @@ func pristineMain(key string) {
 	s.cacheOn = parts[0][len(names)] == '+'
 	var c int
 	fmt.Sscan(parts[2], &c)
-	fmt.Print(render(newEngine(s), parts[1], c, false))
+	// only the queried template and what it needs: the first twig activity of this process
+	e := twig.New()
+	e.EnableSandbox(twig.NewDefaultSecurityPolicy())
+	e.RegisterLoader(twig.NewArrayLoader(loaded))
+	need := map[string]bool{parts[1]: true}
+	for changed := true; changed; {
+		changed = false
+		for n := range need {
+			for _, d := range deps[n] {
+				if !need[d] {
+					need[d] = true
+					changed = true
+				}
+			}
+		}
+	}
+	for _, n := range names {
+		if need[n] {
+			e.RegisterString(n, lib[n][s.reg[n]])
+		}
+	}
+	e.SetCache(s.cacheOn)
+	fmt.Print(render(e, parts[1], c, false))
 }
 
 // ---- invariants on cached templates
@@ -219,6 +252,23 @@ func runHistory(seq []op, prefix []int, alts int, sweepCtxs int) execResult {
 	x.PoolAlts = alts
 	// engines are built without deviations (construction is not part of the history)
 	engs := []*twig.Engine{newEngine(st[0]), newEngine(st[1])}
+	// a handle the caller keeps, also registered under a second name on the other engine: it must
+	// keep rendering its own source whatever happens to the name it was loaded under
+	kept, _ := engs[0].Load("a")
+	if kept != nil {
+		engs[1].RegisterTemplate("a_alias", kept)
+	}
+	keptWant := func(c int) string { return expect(&engState{reg: map[string]int{}, cacheOn: true}, "a", c) }
+	renderKept := func(c int) string {
+		if kept == nil {
+			return "NO-HANDLE"
+		}
+		out, err := kept.Render(ctxs[c])
+		if err != nil {
+			return "ERR"
+		}
+		return out
+	}
 	tr := &tracker{hash: map[*twig.Template]uint64{}}
 	viol := tr.check(engs)
 	nops := 0
@@ -237,6 +287,14 @@ func runHistory(seq []op, prefix []int, alts int, sweepCtxs int) execResult {
 			x.Begin()
 			if got != want {
 				viol = fmt.Sprintf("%v returned %q, a pristine process returns %q", o, got, want)
+			}
+		case "renderkept":
+			got := renderKept(o.Ctx)
+			x.End()
+			want := keptWant(o.Ctx)
+			x.Begin()
+			if got != want {
+				viol = fmt.Sprintf("rendering the template handle obtained from Load(\"a\") at the start returned %q, want %q", got, want)
 			}
 		case "register":
 			e.RegisterString(o.Name, lib[o.Name][o.V])
@@ -292,6 +350,17 @@ func runHistory(seq []op, prefix []int, alts int, sweepCtxs int) execResult {
 			}
 		}
 	}
+	// the kept handle and its alias on the other engine still render the source they were made from
+	for c := 0; c < sweepCtxs && viol == ""; c++ {
+		if got, want := renderKept(c), keptWant(c); got != want {
+			viol = fmt.Sprintf("sweep: the template handle obtained from Load(\"a\") at the start renders %q, want %q", got, want)
+		}
+		if kept != nil && viol == "" && st[1].cacheOn {
+			if got, want := render(engs[1], "a_alias", c, false), keptWant(c); got != want {
+				viol = fmt.Sprintf("sweep: the same template registered as a_alias on engine 1 renders %q, want %q", got, want)
+			}
+		}
+	}
 	if viol == "" {
 		viol = tr.check(engs)
 	}
@@ -304,6 +373,7 @@ func alphabet(thorough bool) []op {
 		a = append(a, op{Kind: "render", Name: n})
 	}
 	a = append(a, op{Kind: "render", Name: "a", Ctx: 1}, op{Kind: "render", Name: "la"}, op{Kind: "renderto", Name: "lb", Ctx: 2})
+	a = append(a, op{Kind: "renderkept"}, op{Kind: "render", Name: "cs2"}, op{Kind: "register", Name: "cs1", V: 1})
 	a = append(a, op{Kind: "render", Eng: 1, Name: "child"})
 	for _, n := range []string{"a", "base", "lib"} {
 		a = append(a, op{Kind: "register", Name: n, V: 1})
@@ -350,9 +420,9 @@ type bound struct {
 func bounds(tier string) []bound {
 	// simplest first: short histories with many deviations, then longer ones with fewer
 	if tier == "thorough" {
-		return []bound{{1, 2, 0}, {2, 2, 0}, {3, 1, 3}, {4, 0, 3}, {3, 2, 2}}
+		return []bound{{1, 2, 0}, {2, 2, 0}, {3, 1, 2}, {3, 1, 3}, {4, 0, 3}, {3, 2, 2}}
 	}
-	return []bound{{1, 2, 0}, {2, 1, 3}, {2, 2, 2}, {3, 0, 3}, {3, 1, 2}}
+	return []bound{{1, 2, 0}, {2, 1, 3}, {2, 2, 2}, {3, 0, 3}}
 }
 
 func run(t *vlib.T) {
